@@ -28,7 +28,9 @@ class C03(Property):
             'inactive parts, species in several reactions, duplicated reactions, substances in no reaction), rate constants and '
             'concentrations as int / Fraction / sympy.Rational / dyadic float (exact), substance_keys None / system order / permuted / '
             'with repeats / subsets, CSTR feed over any subset of substances, a missing-variable stream (KeyError), permuted reaction '
-            'lists, short conc / rates vectors and unknown keys for the array path. A case is non-trivial when it is a distinct JSON '
+            'lists, short conc / rates vectors and unknown keys for the array path; HISTORIES: 3-15 calls on one ReactionSystem object (rates / array path / '
+            'stoichiometry matrices / Reaction.rate) interleaved with set_param, replace_rxn, append (+= and list.append), delete, permute_rxns, '
+            'sort_substances_inplace, each observation compared with the stateless model on the current state. A case is non-trivial when it is a distinct JSON '
             'value and has at least one reaction.')
     assumptions = ('rate parameters are plain numbers (the MassAction([param]) branch of Reaction.rate_expr); Expr parameters belong to C16, '
                    'symbolic variables to C04 (a small symbolic sample is checked by the oracle here)',
@@ -57,6 +59,9 @@ class C03(Property):
             sysd = kg.rand_system(rng, tier)
             subst, rxns, num = sysd['subst'], sysd['rxns'], sysd['num']
             r = rng.random()
+            if i % 9 == 4:
+                cases.append(self._history(rng, tier))
+                continue
             if r < 0.18 and rxns:
                 c = {'op': 'rxn_rate', 'rxn': rng.choice(rxns), 'vars': sysd['vars'], 'num': num,
                      'keys': self._keys(rng, subst, allow_none=False)}
@@ -100,6 +105,118 @@ class C03(Property):
             cases.append(c)
         return cases
 
+    # ---- histories: several calls on ONE ReactionSystem object with mutations in between ------------------------
+    def _history(self, rng, tier):
+        sysd = kg.rand_system(rng, tier, smax=6, rmax=4)
+        subst, num = sysd['subst'], sysd['num']
+        cmax = 2 if num == 'float' else 3
+        if not sysd['rxns']:
+            sysd['rxns'] = [kg.rand_reaction(rng, subst, num, cmax)]
+        vars_ = sysd['vars'] + [['feedratio', kg.rand_rat(rng, num)]] + [['fc_' + k, kg.rand_rat(rng, num)] for k in subst]
+        nr = len(sysd['rxns'])
+        steps = []
+
+        def observe():
+            o = rng.random()
+            if o < 0.55:
+                keys = rng.choice([None, 'ORDER', 'ORDER', self._keys(rng, subst, allow_none=False)])
+                cstr = None
+                if rng.random() < 0.3:
+                    cstr = {'fr': 'feedratio', 'fc': [[k, 'fc_' + k] for k in rng.sample(subst, rng.randint(0, len(subst)))]}
+                return {'do': 'obs', 'op': 'sys_rates', 'keys': keys, 'cstr': cstr}
+            if o < 0.75:
+                return {'do': 'obs', 'op': 'array_path'}
+            if o < 0.9:
+                return {'do': 'obs', 'op': 'stoichs', 'keys': rng.choice(['ORDER', self._keys(rng, subst, allow_none=False)])}
+            return {'do': 'obs', 'op': 'rxn_rate', 'i': rng.randrange(nr) if nr else 0, 'keys': 'ORDER'}
+
+        steps.append(observe())
+        for _ in range(rng.randint(2, 6)):
+            m = rng.random()
+            if m < 0.3 and nr:
+                steps.append({'do': 'set_param', 'i': rng.randrange(nr), 'param': kg.rand_rat(rng, num)})
+            elif m < 0.5 and nr:
+                steps.append({'do': 'replace_rxn', 'i': rng.randrange(nr), 'rxn': kg.rand_reaction(rng, subst, num, cmax)})
+            elif m < 0.62:
+                steps.append({'do': 'append', 'rxn': kg.rand_reaction(rng, subst, num, cmax), 'via': rng.choice(['iadd', 'list'])})
+                nr += 1
+            elif m < 0.7 and nr > 1:
+                steps.append({'do': 'delete', 'i': rng.randrange(nr)})
+                nr -= 1
+            elif m < 0.82:
+                steps.append({'do': 'sort_substances'})
+            elif nr > 1:
+                perm = list(range(nr))
+                rng.shuffle(perm)
+                steps.append({'do': 'permute_rxns', 'perm': perm})
+            else:
+                steps.append({'do': 'sort_substances'})
+            for _ in range(rng.randint(1, 2)):
+                steps.append(observe())
+        return {'op': 'history', 'subst': subst, 'rxns': sysd['rxns'], 'vars': vars_, 'num': num, 'steps': steps}
+
+    @staticmethod
+    def _apply_pure(state, st):
+        """the mutation on the harness' own (pure) description of the system"""
+        d = st['do']
+        if d == 'set_param':
+            state['rxns'][st['i']] = dict(state['rxns'][st['i']], param=st['param'])
+        elif d == 'replace_rxn':
+            state['rxns'][st['i']] = st['rxn']
+        elif d == 'append':
+            state['rxns'].append(st['rxn'])
+        elif d == 'delete':
+            del state['rxns'][st['i']]
+        elif d == 'sort_substances':
+            state['subst'] = sorted(state['subst'])
+        elif d == 'permute_rxns':
+            state['rxns'] = [state['rxns'][i] for i in st['perm']]
+        else:
+            raise ValueError(d)
+
+    @staticmethod
+    def _apply_real(rsys, st, num):
+        """the same mutation through chempy's public, mutable API"""
+        d = st['do']
+        if d == 'set_param':
+            rsys.rxns[st['i']].param = kg.to_num(st['param'], num)
+        elif d == 'replace_rxn':
+            rsys.rxns[st['i']] = kg.mk_reaction(st['rxn'], num)
+        elif d == 'append':
+            if st['via'] == 'iadd':
+                rsys += [kg.mk_reaction(st['rxn'], num)]
+            else:
+                rsys.rxns.append(kg.mk_reaction(st['rxn'], num))
+        elif d == 'delete':
+            del rsys.rxns[st['i']]
+        elif d == 'sort_substances':
+            rsys.sort_substances_inplace()
+        elif d == 'permute_rxns':
+            rsys.rxns[:] = [rsys.rxns[i] for i in st['perm']]
+        else:
+            raise ValueError(d)
+        return rsys
+
+    def _single(self, state, st, c):
+        """the observation `st` as a stand-alone single-step case on the current state"""
+        order = list(state['subst'])
+        keys = st.get('keys')
+        keys = order if keys == 'ORDER' else keys
+        base = {'subst': order, 'rxns': [dict(r) for r in state['rxns']], 'vars': c['vars'], 'num': c['num']}
+        if st['op'] == 'sys_rates':
+            return dict(base, op='sys_rates', keys=keys, cstr=st['cstr'], perm=list(range(len(state['rxns']))))
+        if st['op'] == 'array_path':
+            vd = dict(map(tuple, ((k, json.dumps(v)) for k, v in c['vars'])))
+            return dict(base, op='array_path', keys=order, conc=[json.loads(vd[k]) for k in order])
+        if st['op'] == 'stoichs':
+            return dict(base, op='stoichs', keys=keys)
+        if st['op'] == 'rxn_rate':
+            if not state['rxns']:
+                return dict(base, op='stoichs', keys=order)
+            i = st['i'] % len(state['rxns'])
+            return {'op': 'rxn_rate', 'rxn': state['rxns'][i], 'i': i, 'vars': c['vars'], 'num': c['num'], 'keys': keys}
+        raise ValueError(st['op'])
+
     def _keys(self, rng, subst, allow_none):
         r = rng.random()
         if allow_none and r < 0.35:
@@ -126,6 +243,15 @@ class C03(Property):
         if not c.get('op'):
             return None
         num = c.get('num', 'Fraction')
+        if c['op'] == 'history':
+            state = {'subst': list(c['subst']), 'rxns': [dict(r) for r in c['rxns']]}
+            msteps = []
+            for st in c['steps']:
+                if st['do'] == 'obs':
+                    msteps.append(self.model_case(self._single(state, st, c)))
+                else:
+                    self._apply_pure(state, st)
+            return {'op': 'history', 'steps': msteps, 'orig': c}
         m = dict(c)
         if 'rxn' in c:
             m['rxn'] = kg.readback(kg.mk_reaction(c['rxn'], num), c['rxn'])
@@ -136,21 +262,14 @@ class C03(Property):
     def _vars(self, c):
         return {k: kg.to_num(v, c['num']) for k, v in c['vars']}
 
-    def impl(self, c):
-        from chempy import ReactionSystem
+    def _observe(self, rsys, c):
+        """one observation on an existing ReactionSystem object -> canonical line"""
         from chempy.kinetics.ode import law_of_mass_action_rates, dCdt_list
-        from chempy.util.stoich import get_coeff_mtx
         op = c['op']
         num = c.get('num', 'Fraction')
         try:
             if op == 'rxn_rate':
-                rxn = kg.mk_reaction(c['rxn'], num)
-                return _dict_line(rxn.rate(self._vars(c), substance_keys=c['keys']))
-            if op == 'coeff_mtx':
-                return _mtx_line(get_coeff_mtx(c['substances'], [(OrderedDict(map(tuple, a)), OrderedDict(map(tuple, b)))
-                                                                 for a, b in c['stoichs']]).tolist())
-            rxns = [kg.mk_reaction(s, num) for s in c['rxns']]
-            rsys = ReactionSystem(rxns, list(c['keys']) if op in ('array_path', 'dcdt') else list(c['subst']), checks=())
+                return _dict_line(rsys.rxns[c['i']].rate(self._vars(c), substance_keys=c['keys']))
             if op == 'sys_rates':
                 cstr = None
                 if c['cstr'] is not None:
@@ -175,7 +294,40 @@ class C03(Property):
             return exc_name(e)
         return '!unknown-op'
 
+    def impl(self, c):
+        from chempy import ReactionSystem
+        from chempy.util.stoich import get_coeff_mtx
+        op = c['op']
+        num = c.get('num', 'Fraction')
+        try:
+            if op == 'history':
+                o = c['orig']
+                num = o['num']
+                rsys = ReactionSystem([kg.mk_reaction(s, num) for s in o['rxns']], list(o['subst']), checks=())
+                outs, j = [], 0
+                for st in o['steps']:
+                    if st['do'] == 'obs':
+                        outs.append(self._observe(rsys, c['steps'][j]))
+                        j += 1
+                    else:
+                        rsys = self._apply_real(rsys, st, num)
+                return ' | '.join(outs)
+            if op == 'rxn_rate':
+                rxn = kg.mk_reaction(c['rxn'], num)
+                return _dict_line(rxn.rate(self._vars(c), substance_keys=c['keys']))
+            if op == 'coeff_mtx':
+                return _mtx_line(get_coeff_mtx(c['substances'], [(OrderedDict(map(tuple, a)), OrderedDict(map(tuple, b)))
+                                                                 for a, b in c['stoichs']]).tolist())
+            rxns = [kg.mk_reaction(s, num) for s in c['rxns']]
+            rsys = ReactionSystem(rxns, list(c['keys']) if op in ('array_path', 'dcdt') else list(c['subst']), checks=())
+            return self._observe(rsys, c)
+        except Exception as e:
+            return exc_name(e)
+
     def same(self, c, io, mo):
+        if c['op'] == 'history':
+            a, b = io.split(' | '), mo.split(' | ')
+            return len(a) == len(b) == len(c['steps']) and all(self.same(m, x, y) for m, x, y in zip(c['steps'], a, b))
         if c['op'] == 'sys_rates' and c['keys'] is None and io[:1] == '[' and mo[:1] == '[':
             # Reaction.keys() is a set: only the mapping is specified, not its order
             return sorted(map(tuple, json.loads(io))) == sorted(map(tuple, json.loads(mo)))
@@ -193,6 +345,69 @@ class C03(Property):
             return self._oracle_array(c)
         if op is None and c.get('kind') == 'symbolic':
             return self._oracle_symbolic(c)
+        if op == 'history':
+            return self._oracle_history(c)
+        return None
+
+    @staticmethod
+    def _live_spec(rxn):
+        """a reaction as the object's CURRENT public attributes describe it"""
+        return {'reac': [[k, v] for k, v in rxn.reac.items()], 'prod': [[k, v] for k, v in rxn.prod.items()],
+                'inact_reac': [[k, v] for k, v in rxn.inact_reac.items()], 'inact_prod': [[k, v] for k, v in rxn.inact_prod.items()],
+                'param': kg.to_frac(rxn.param)}
+
+    def _oracle_history(self, c):
+        """After every step: what rates / N^T r must be, recomputed from the object's current rxns, params and substance order."""
+        from chempy import ReactionSystem
+        from chempy.kinetics.ode import law_of_mass_action_rates, dCdt_list
+        num = c['num']
+        vars_ = self._vars(c)
+        conc = {k: kg.to_frac(v) for k, v in vars_.items()}
+        rsys = ReactionSystem([kg.mk_reaction(s, num) for s in c['rxns']], list(c['subst']), checks=())
+        state = {'subst': list(c['subst']), 'rxns': [dict(r) for r in c['rxns']]}
+        for n, st in enumerate(c['steps']):
+            if st['do'] != 'obs':
+                rsys = self._apply_real(rsys, st, num)
+                self._apply_pure(state, st)
+                continue
+            where = 'step %d (%s after %s)' % (n, st['op'], [x['do'] for x in c['steps'][:n] if x['do'] != 'obs'])
+            live = [self._live_spec(r) for r in rsys.rxns]
+            order = list(rsys.substances)
+            if order != state['subst'] or len(live) != len(state['rxns']) or any(
+                    kg.frac(a['param']) != b['param'] or any(dict(map(tuple, a[p])) != dict(map(tuple, b[p]))
+                                                             for p in ('reac', 'prod', 'inact_reac', 'inact_prod'))
+                    for a, b in zip(state['rxns'], live)):
+                return where + ': the public state of the system is not what the mutations should have produced'
+            if st['op'] == 'sys_rates':
+                keys = order if st['keys'] == 'ORDER' else st['keys']
+                cstr = None if st['cstr'] is None else (st['cstr']['fr'], OrderedDict(map(tuple, st['cstr']['fc'])))
+                got = {k: kg.to_frac(v) for k, v in rsys.rates(vars_, substance_keys=keys, cstr_fr_fc=cstr).items()}
+                want = {}
+                for s in live:
+                    rate = kg.rate_of(s, conc)
+                    for k in (list(dict.fromkeys(keys)) if keys is not None else kg.spec_keys(s)):
+                        want[k] = want.get(k, 0) + kg.net_of(s, k) * rate
+                if cstr:
+                    for sk, fck in st['cstr']['fc']:
+                        want[sk] = want.get(sk, 0) + conc['feedratio'] * (conc[fck] - conc[sk])
+                if got != want:
+                    k = next(k for k in list(want) + list(got) if want.get(k) != got.get(k))
+                    return '%s: ReactionSystem.rates gives d[%s]/dt = %s, the current reactions and constants give %s' % (
+                        where, k, got.get(k), want.get(k))
+            elif st['op'] == 'array_path':
+                f = [kg.to_frac(x) for x in dCdt_list(rsys, list(law_of_mass_action_rates([vars_[k] for k in order], rsys)))]
+                want = [sum(kg.net_of(s, k) * kg.rate_of(s, conc) for s in live) for k in order]
+                if f != want:
+                    return '%s: dCdt_list gives %s, the current reactions give %s' % (where, f, want)
+            elif st['op'] == 'stoichs':
+                keys = order if st['keys'] == 'ORDER' else st['keys']
+                if rsys.net_stoichs(keys).tolist() != [[kg.net_of(s, k) for k in keys] for s in live]:
+                    return where + ': net_stoichs differs from the current reactions'
+            elif st['op'] == 'rxn_rate' and live:
+                i = st['i'] % len(live)
+                got = {k: kg.to_frac(v) for k, v in rsys.rxns[i].rate(vars_, substance_keys=order).items()}
+                if got != {k: kg.net_of(live[i], k) * kg.rate_of(live[i], conc) for k in order}:
+                    return where + ': Reaction.rate differs from the current reaction'
         return None
 
     def _needed_missing(self, specs, vars_, cstr=None):
@@ -304,6 +519,8 @@ class C03(Property):
 
     def classify(self, c):
         op = c.get('op') or c.get('kind')
+        if op == 'history':
+            return 'history:' + '+'.join(sorted({x['do'] for x in c['steps'] if x['do'] != 'obs'}))
         if op == 'sys_rates':
             miss = bool(self._needed_missing(c['rxns'], dict(map(tuple, c['vars'])), c['cstr']))
             return 'sys_rates:%s:%s%s:nr%s%s' % (c['num'], 'keys=None' if c['keys'] is None else 'keys', ':cstr' if c['cstr'] else '',
